@@ -39,6 +39,10 @@ def stepD (_ : Unit) (ts : List String) : Unit × String :=
         let tr := rdmPropagateDeph (genTensor GRat.I H (tensAt n a n2)) (matAt n a (2 * n2 + n4)) dt L nref nt
           (MatD.tab (matAt n a (n2 + n4)))
         ((), " | ".intercalate (tr.map showMD))
+      else if op == "proptg" ∧ a.size = 4 * n2 + n4 then
+        let tr := rdmPropagateDephG (genTensor GRat.I H (tensAt n a n2)) (matAt n a (2 * n2 + n4)) (matAt n a (3 * n2 + n4)) dt L nref
+          nt 0 (MatD.tab (matAt n a (n2 + n4)))
+        ((), " | ".intercalate (tr.map showMD))
       else if op == "propo" ∧ a.size = 2 * n2 + 3 * nb * n2 then
         let tr := rdmPropagate (genOps GRat.I H (comps n nb a n2)) dt L nref nt (MatD.tab (matAt n a (n2 + 3 * nb * n2)))
         ((), " | ".intercalate (tr.map showMD))
